@@ -18,7 +18,9 @@ RULE = ("Bounded restatement of the asymptotic claim.  Random smooth ODEs (index
         "log(error) over log(M), using the M with error above the round-off floor, must be <= -(p - 0.6) with p the "
         "classical order (1, 4, 2d-1, 2d); errors at the floor only need to stay there; CasADi integrators must be within "
         "1e3 x the requested tolerance.  ocp.sys_simulator and ocp.discrete_system are evaluated on the same inputs and "
-        "must describe the same flow.  non-trivial = order measured on >= 2 usable M or floor reached; distinct = method x "
+        "must describe the same flow.  A second family puts a grid='bspline' parameter (order 1-3) into the "
+        "right-hand side and measures the same convergence in M against the exact flow and against the flow with the "
+        "signal frozen over each control interval (three-way decision).  non-trivial = order measured on >= 2 usable M or floor reached; distinct = method x "
         "integrator x degree x grid.")
 ASSUMPTIONS = ["scipy solve_ivp (DOP853 / Radau, rtol 1e-12) is the exact flow", "one-sided test with margin 0.6 "
                "(super-convergence accepted); short horizons keep h*L small so that M>=2 is in the asymptotic regime"]
@@ -77,6 +79,16 @@ def gen_cases(rng, tier):
         N = spec["method"]["N"]
         U = {s["name"]: [[ocpgen.rnd(rng, -1, 1) for _ in range(N)] for _ in range(s["shape"][0])] for s in spec["controls"]}
         cases.append({"spec": spec, "x0": x0, "U": U, "seed": rng.getrandbits(32), "sub": sub})
+    # a B-spline parameter (a time-varying input) inside the right-hand side
+    skinds = [("SS", "rk"), ("MS", "rk"), ("SS", "expl_euler"), ("DC", "radau"), ("DC", "legendre")]
+    for i in range(10 if tier == "quick" else 100):
+        cls, sub = skinds[i % len(skinds)]
+        N = rng.choice([1, 2, 3])
+        d = rng.choice([1, 2, 3])
+        cases.append({"kind": "signals", "cls": cls, "sub": sub, "N": N, "order": d, "degree": rng.choice([1, 2, 3]),
+                      "coef": [ocpgen.rnd(rng, -2, 2) for _ in range(N + d)], "a": ocpgen.rnd(rng, -1.5, 0.5),
+                      "x0": ocpgen.rnd(rng, -1, 1), "t0": ocpgen.rnd(rng, -1, 1, 2), "T": ocpgen.rnd(rng, 0.3, 0.9, 2),
+                      "grid": ocpgen.gen_grid(rng, ["uniform", "geometric", "function"], 3), "seed": rng.getrandbits(32)})
     return cases
 
 
@@ -201,7 +213,119 @@ def implied(spec, M, x0, U, rng):
     return xend, f, obs
 
 
+def run_signals(case):
+    """x' = a x + w(t) + 0.3 sin(w(t)) with w a grid='bspline' parameter of order 1..3: the end state implied by the
+    transcription for M = 1, 2, 4, 8, 16 converges to the exact flow at the scheme's order.  A second reference freezes w at
+    its value at the start of every control interval: a transcription that converges to THAT flow instead is the recorded
+    finding (signals held constant over the control interval by the shooting integrators); anything else is a violation."""
+    import casadi as ca
+    import rockit
+    from scipy.integrate import solve_ivp
+    from ..gen import build
+    from ..ref import grids as G
+    from .c17 import spline_eval
+    cls, sub, N, d = case["cls"], case["sub"], case["N"], case["order"]
+    if cls == "DC":
+        deg = case["degree"]
+        order = 2 * deg - 1 if sub == "radau" else 2 * deg
+        tag = "DC-%s%d" % (sub[0], deg)
+    else:
+        order = {"rk": 4, "expl_euler": 1}[sub]
+        tag = "%s-%s" % (cls, sub)
+    res = {"sig": "signals|%s|%s|N%d|order%d" % (tag, C.grid_tag(case["grid"]), N, d), "evals": 0, "violations": [],
+           "counters": {"transcriptions": 0, "orders_measured": 0, "at_floor": 0, "signal_cases": 1}}
+    a, x0, t0, T = case["a"], case["x0"], case["t0"], case["T"]
+    tc = t0 + T * np.array(G.normalized(case["grid"], N))
+    coef = np.array(case["coef"], dtype=float).reshape(1, -1)
+
+    def w_at(t):
+        return float(spline_eval(list(tc), d, coef, np.array([min(max(t, tc[0]), tc[-1])]))[0][0])
+
+    def flow(frozen):
+        x = x0
+        for k in range(N):
+            wk = w_at(tc[k])
+            f = (lambda t, y: [a * y[0] + wk + 0.3 * np.sin(wk)]) if frozen else (
+                lambda t, y: [a * y[0] + w_at(t) + 0.3 * np.sin(w_at(t))])
+            so = solve_ivp(f, (tc[k], tc[k + 1]), [x], method="DOP853", rtol=1e-12, atol=1e-13)
+            if not so.success:
+                return None
+            x = float(so.y[0, -1])
+        return x
+
+    xe, xf = flow(False), flow(True)
+    if xe is None or xf is None:
+        res["status"] = "discarded"
+        res["note"] = "reference flow failed"
+        return res
+    errs_e, errs_f = [], []
+    for M in MS_LIST:
+        try:
+            ocp = rockit.Ocp(t0=t0, T=T)
+            x = ocp.state()
+            w = ocp.parameter(grid="bspline", order=d)
+            ocp.set_value(w, ca.DM(coef))
+            ocp.set_der(x, a * x + w + 0.3 * ca.sin(w))
+            ocp.subject_to(ocp.at_t0(x) == x0)
+            ocp.solver("ipopt", {"ipopt.print_level": 0, "print_time": False, "ipopt.tol": 1e-13,
+                                 "ipopt.constr_viol_tol": 1e-13, "ipopt.max_iter": 50})
+            g_ = build.make_grid(case["grid"])
+            if cls == "DC":
+                ocp.method(rockit.DirectCollocation(N=N, M=M, degree=case["degree"], scheme=sub, grid=g_))
+            else:
+                Meth = rockit.MultipleShooting if cls == "MS" else rockit.SingleShooting
+                ocp.method(Meth(N=N, M=M, intg=sub, grid=g_))
+            C.call("transcribe", lambda: ocp._transcribed)
+            try:
+                sol = ocp.solve()
+            except Exception:
+                res["status"] = "discarded"
+                res["note"] = "square feasibility problem not solved for M=%d" % M
+                return res
+            xend = float(np.array(sol.sample(x, grid="control")[1]).reshape(-1)[-1])
+        except C.RockitRaised as e:
+            res["violations"].append(C.exc_violation(ID, e, "signals|" + tag))
+            return res
+        res["counters"]["transcriptions"] += 1
+        errs_e.append(abs(xend - xe))
+        errs_f.append(abs(xend - xf))
+    scale = 1 + abs(xe)
+    floor = 2e-9 * scale
+
+    def converges(errs):
+        use = [(M, e) for M, e in zip(MS_LIST, errs) if e > floor and M >= 2]
+        if len(use) < 2:
+            return errs[-1] <= max(floor, 1e-9 * scale), None
+        lm, le = np.log([u_[0] for u_ in use]), np.log([u_[1] for u_ in use])
+        slope = min(float(np.polyfit(lm, le, 1)[0]), float((le[-1] - le[-2]) / (lm[-1] - lm[-2])))
+        return slope <= -(order - (0.6 if len(use) >= 3 else 1.0)), -slope
+
+    res["evals"] += 1
+    ok, obs_order = converges(errs_e)
+    res["sample"] = {"method": tag, "signal_order": d, "N": N, "errors_vs_exact_flow": C.short(errs_e),
+                     "errors_vs_frozen_signal_flow": C.short(errs_f), "observed_order": obs_order}
+    if ok:
+        res["counters"]["orders_measured" if obs_order is not None else "at_floor"] += 1
+    else:
+        okf, _ = converges(errs_f)
+        if okf and cls in ("SS", "MS") and abs(xe - xf) > 100 * floor:
+            res["violations"].append({
+                "kind": "signals-frozen", "mech": "C03|error-does-not-vanish-with-bspline-signal-under-shooting",
+                "detail": "%s, B-spline parameter of order %d in the right-hand side: |x(tf) - exact| for M=%s is %s; the "
+                          "transcription converges to the flow with the signal held at its value at the start of every "
+                          "control interval instead (errors %s)" % (tag, d, MS_LIST, C.short(errs_e), C.short(errs_f))})
+        else:
+            res["violations"].append({
+                "kind": "order", "mech": "C03|order-too-low|signals|%s" % tag,
+                "detail": "B-spline parameter of order %d in the right-hand side: |x(tf) - exact| for M=%s is %s (classical "
+                          "order %d); against the frozen-signal flow %s" % (d, MS_LIST, C.short(errs_e), order, C.short(errs_f))})
+    res["nontrivial"] = True
+    return res
+
+
 def run_case(case):
+    if case.get("kind") == "signals":
+        return run_signals(case)
     import casadi as ca
     spec = case["spec"]
     m = spec["method"]
